@@ -3,6 +3,7 @@ package c04
 import (
 	"bytes"
 	"fmt"
+	"io"
 
 	"github.com/EliCDavis/polyform/formats/ply"
 	"github.com/EliCDavis/polyform/modeling"
@@ -62,5 +63,30 @@ func (k checker) saveSequences(next func() bool) {
 			}
 		}
 	}
+	for fi := 0; fi < 3; fi++ {
+		if next() {
+			k.afterFailedWrite(fi)
+		}
+	}
 	k.c.Bound("F.save_sequences", "every sequence of 1..3 ply.Save calls over a 9-face strip, a 4-point cloud and a textured triangle to one path, in each encoding; the file must equal the in-memory write of the last")
+}
+
+// a write after a failed write (core.AfterFailedWrite), per encoding
+func (k checker) afterFailedWrite(fi int) {
+	formats := []ply.Format{ply.ASCII, ply.BinaryLittleEndian, ply.BinaryBigEndian}
+	names := []string{"ascii", "binary_little_endian", "binary_big_endian"}
+	cs := Case{Scope: "after-failed-write", SaveFormat: -(fi + 1)}
+	cfgs := []MeshCfg{
+		{Gen: "strip", N: 300, Attrs: []AttrCfg{{"Position", 3, "gen"}, {"Normal", 3, "gen"}, {"Color", 3, "unit"}}},
+		{Topo: "tri", V: 3, Idx: []int{0, 1, 2}, Attrs: []AttrCfg{{"Position", 3, "gen"}, {"TexCoord", 2, "gen"}}},
+	}
+	k.c.Nontrivial("after-failed-write", fi)
+	why := core.AfterFailedWrite(core.FailLimits, func(it int, w io.Writer) error { return ply.Write(w, cfgs[it].resolved().Build(), formats[fi]) })
+	scope := "files/after-failed-write/" + names[fi]
+	if why != "" {
+		k.c.Eval(scope, "mismatch")
+		k.c.Violate(core.Violation{Site: "ply.Write", Clause: "writing a mesh yields exactly the bytes of that mesh (also right after an earlier write failed)", Class: "after-failed-write/" + names[fi], Detail: why, Case: cs})
+		return
+	}
+	k.c.Eval(scope, "ok")
 }
